@@ -17,7 +17,8 @@ ASSUMPTIONS = TRUSTED_BASE + [
     "the real calculate() runs on symbolic positions and on R(q)-rotated ones, and the two results are the same rational function of coordinates and q after canonicalising sqrt/arctan2 applications (sympy cancel; symnp/ratid.py). "
     "Sound wherever no denominator vanishes (|q| != 0, non-coincident atoms).  The earlier attempt (R^T R = I, det R = 1 as constraints) stayed `unknown` in z3 nlsat and cvc5",
     "periodic Dihedral: decided compositionally -- with pbc_dist_coordinate replaced by a recording stub the real calculate() wraps exactly its three bond vectors with the system's box, and its angle is the non-periodic angle of a chain "
-    "built from the wrapped vectors (rational-function identity); box-vector shift invariance then follows from the clause pbc_image_shift_invariant. Periodic Puckering is not covered",
+    "built from the wrapped vectors (rational-function identity); box-vector shift invariance then follows from the clause pbc_image_shift_invariant. Periodic Puckering likewise: exactly the five ring vectors p_i - p_0 are wrapped with the system's box and the three coordinates are the "
+    "non-periodic coordinates of the ring (0, w_1..w_5) (vector operators of the two runs get identical arguments)",
     "rotation invariance of Puckering: decided COMPOSITIONALLY (the brute-force identity over 18 coordinates x quaternion did not finish in 40 min): cross(Ra,Rb) = R cross(a,b) and dot(Ra,Rb) = dot(a,b) are proved as identities for generic vectors; "
     "the real calculate() then runs on positions and rotated positions with np.cross / np.dot / np.linalg.norm as recording operators (first run: fresh symbols; second run: arguments must be R times the first run's, results are R times resp. equal to the first run's, "
     "which is what the lemmas say the real operators return); the two results are identical. Reflections are not rotations and change the sign of a dihedral (checked: the back end answers `unknown` for a reflection)",
@@ -44,6 +45,7 @@ def jobs(tier):
     js = [("py", {"name": n, "module": "props.C20", "fn": "run_clause", "clause": n, "cost": 5 if "pucker" in n else 1}) for n in names]
     js += [("py", {"name": n, "module": "props.C20", "fn": "run_rotation", "clause": n, "cost": 8}) for n in ("distance_rotation", "dihedral_rotation")]
     js.append(("py", {"name": "puckering_rotation", "module": "props.C20", "fn": "run_puckering_rotation", "clause": "puckering_rotation", "cost": 8}))
+    js.append(("py", {"name": "puckering_periodic_composition", "module": "props.C20", "fn": "run_puckering_rotation", "clause": "puckering_periodic_composition", "mode": "periodic", "cost": 2}))
     return js
 
 
@@ -505,12 +507,75 @@ def run_rotation(spec, tier, seed):
     return {"job": clause, "obligations": obs, "coverage_extra": {"e2_paths": n_paths, "rotation_infeasible_paths": n_infeasible}, "samples": [{"clause": clause, "paths": n_paths}]}
 
 
+def _native_symmetry(kind, what, n=300):
+    """Numeric counterpart of the rotation / periodic-shift clauses (used to turn an `unknown` of the identity back end into a
+    replayed violation): random positions, random proper rotations R(q) resp. random whole-box shifts of single atoms."""
+    import random
+    import numpy as np
+    import importlib.util  # noqa: F401
+    import infretis.classes.orderparameter as op
+    from infretis.classes.system import System
+    rnd = random.Random(99)
+    cls = {"distance": op.Distance, "dihedral": op.Dihedral, "puckering": op.Puckering}[kind]
+    nat = {"distance": 2, "dihedral": 4, "puckering": 6}[kind]
+    idx = tuple(range(nat)) if nat > 2 else (0, 1)
+    for _ in range(n):
+        pos = np.array([[rnd.uniform(-1, 1) for _ in range(3)] for _ in range(nat + 1)])
+        s = System()
+        s.pos, s.vel, s.box = pos.copy(), np.zeros_like(pos), np.array([2.5, 3.0, 3.5])
+        if what == "rotation":
+            a, b, c, d = (rnd.uniform(-1, 1) for _ in range(4))
+            n2 = a * a + b * b + c * c + d * d
+            R = np.array([[a * a + b * b - c * c - d * d, 2 * (b * c - a * d), 2 * (b * d + a * c)], [2 * (b * c + a * d), a * a - b * b + c * c - d * d, 2 * (c * d - a * b)],
+                          [2 * (b * d - a * c), 2 * (c * d + a * b), a * a - b * b - c * c + d * d]]) / n2
+            s.box = None
+            o = cls(idx, periodic=False)
+            r1 = o.calculate(s)
+            s2 = System()
+            s2.pos, s2.vel, s2.box = pos @ R.T, np.zeros_like(pos), None
+            r2 = o.calculate(s2)
+        else:
+            o = cls(idx, periodic=True)
+            r1 = o.calculate(s)
+            s2 = System()
+            p2 = pos.copy()
+            k = rnd.randrange(nat)
+            p2[k] += np.array([rnd.randint(-2, 2) * 2.5, rnd.randint(-2, 2) * 3.0, rnd.randint(-2, 2) * 3.5])
+            s2.pos, s2.vel, s2.box = p2, np.zeros_like(pos), np.array([2.5, 3.0, 3.5])
+            r2 = o.calculate(s2)
+        d = max(abs(float(x) - float(y)) for x, y in zip(r1, r2))
+        d = min(d, abs(d - 360.0), abs(d - 2 * np.pi))  # angles are compared modulo a full turn
+        if d > 1e-7:
+            return {"clause": f"{kind}_{what}", "positions": pos.tolist(), "result": [float(x) for x in r1], "result_after_symmetry": [float(x) for x in r2], "errors": [f"{kind} changed by {d:.3g} under {what}"]}
+    return None
+
+
+def search(obname, limit=None):
+    cl = obname.split("/")[0]
+    for kind in ("distance", "dihedral", "puckering"):
+        if cl == f"{kind}_rotation":
+            w = _native_symmetry(kind, "rotation")
+        elif cl == f"{kind}_periodic_composition":
+            w = _native_symmetry(kind, "periodic_shift")
+        else:
+            continue
+        return {"witness": w, "native": {"reproduced": True, "violations": w["errors"], "detail": w["errors"]}} if w else None
+    return None
+
+
+def relevant(obname, found):
+    return True  # one numeric oracle per clause, restating exactly that clause
+
+
 # ------------------------------------------------------------------ native replay
 def kf_half_box_tie(w, native):
     return "image_shift" in (w or {}).get("clause", "") and (w or {}).get("goal") in ("including_ties",)
 
 
 def replay(obname, w):
+    if isinstance(w, dict) and str(w.get("clause", "")).endswith(("_rotation", "_periodic_shift")):
+        hit = search(obname)
+        return hit["native"] if hit else {"reproduced": False, "detail": "numerically invariant on 300 random inputs"}
     import importlib.util  # noqa: F401
     import numpy as np
     from infretis.classes.orderparameter import Distancevel, pbc_dist_coordinate
@@ -553,7 +618,7 @@ def run_puckering_rotation(spec, tier, seed):
     if p.is_alive():
         p.kill()
     if "error" in r:
-        return {"job": "puckering_rotation", "obligations": [{"name": "puckering_rotation/components_identical", "result": "unknown", "label": "proved-per-shape", "backend": "sympy", "time_s": 400.0,
+        return {"job": "puckering_rotation", "obligations": [{"name": ("puckering_periodic_composition" if spec.get("mode") == "periodic" else "puckering_rotation") + "/components_identical", "result": "unknown", "label": "proved-per-shape", "backend": "sympy", "time_s": 400.0,
                                                               "engine": "E2", "solver_output": r["error"]}]}
     return r
 
@@ -636,11 +701,45 @@ def _puckering_rotation(spec, tier, seed):
 
     def scen(ex):
         s = _mk(ex, 7, 3)
+        proxy = P()
+        proxy.linalg = _LA(proxy)
+        if spec.get("mode") == "periodic":
+            # periodic Puckering = the non-periodic formula on (0, pbc(p_i - p_0)): pbc_dist_coordinate is a recording stub, the
+            # vector operators of the two runs must get IDENTICAL arguments (R = identity)
+            Rm = np.empty((3, 3), dtype=object)
+            for i in range(3):
+                for j in range(3):
+                    Rm[i, j] = Sym(z3.RealVal(1 if i == j else 0))
+            state.update(run=1, calls=[], k=0, bad=[], R=Rm)
+            wrapped = []
+            real = op.pbc_dist_coordinate
+
+            def stub(distance, box_lengths):
+                w = sym_array(f"w{len(wrapped)}", (3,))
+                wrapped.append((distance, box_lengths, w.copy()))
+                return w
+            op.np, op.pbc_dist_coordinate = proxy, stub
+            try:
+                r1 = op.Puckering(tuple(range(6)), periodic=True).calculate(s)
+                for k, (d, bx, w) in enumerate(wrapped):
+                    if len(wrapped) != 5 or not ident(list(zip(d, s.pos[k + 1] - s.pos[0]))) or not ident(list(zip(bx, s.box[:3]))):
+                        state["bad"].append(f"wrapped vector {k} is not p_{k + 1} - p_0 with the system's box")
+                if len(wrapped) != 5:
+                    state["bad"].append(f"{len(wrapped)} vectors wrapped instead of the five ring vectors")
+                chain = np.empty((7, 3), dtype=object)
+                for c in range(3):
+                    chain[0, c] = Sym(z3.RealVal(0))
+                    chain[6, c] = Sym(z3.RealVal(0))
+                    for k in range(5):
+                        chain[k + 1, c] = wrapped[k][2][c] if k < len(wrapped) else Sym(z3.RealVal(0))
+                state["run"] = 2
+                r2 = op.Puckering(tuple(range(6)), periodic=False).calculate(_clone(s, pos=chain))
+            finally:
+                op.np, op.pbc_dist_coordinate = np, real
+            return r1, r2, list(state["bad"]), len(state["calls"]), state["k"]
         s.box = None
         Rm = _rotation_q(ex)
         state.update(run=1, calls=[], k=0, bad=[], R=Rm)
-        proxy = P()
-        proxy.linalg = _LA(proxy)
         op.np = proxy
         try:
             o = op.Puckering(tuple(range(6)), periodic=False)
@@ -667,6 +766,9 @@ def _puckering_rotation(spec, tier, seed):
             results[nm] = "unsat" if ok and results.get(nm, "unsat") == "unsat" else "unknown"
     if not npaths:
         results["some_feasible_path"] = "unknown"
-    obs = [{"name": f"puckering_rotation/{g}", "result": r, "label": "proved-per-shape", "backend": "sympy-" + sympy.__version__ + " (rational-function identities, compositional)", "time_s": round(time.time() - t0, 2),
+    cname = "puckering_periodic_composition" if spec.get("mode") == "periodic" else "puckering_rotation"
+    if spec.get("mode") == "periodic":
+        results = {("every_vector_operation_of_the_chain_run_gets_the_same_arguments" if "vector_operation" in g else g): r for g, r in results.items() if not g.startswith("lemma_")}
+    obs = [{"name": f"{cname}/{g}", "result": r, "label": "proved-per-shape", "backend": "sympy-" + sympy.__version__ + " (rational-function identities, compositional)", "time_s": round(time.time() - t0, 2),
             "engine": "E2", "solver_output": None if r == "unsat" else "not identical / operation mismatch (undecided, never a refutation)"} for g, r in results.items()]
-    return {"job": "puckering_rotation", "obligations": obs, "coverage_extra": {"e2_paths": npaths}, "samples": [{"clause": "puckering_rotation", "paths": npaths}]}
+    return {"job": cname, "obligations": obs, "coverage_extra": {"e2_paths": npaths}, "samples": [{"clause": cname, "paths": npaths}]}
